@@ -393,7 +393,7 @@ func (r *c18Run) exec(op c18Op) {
 		err := ch.send(&erc20types.MsgUpdateParams{Authority: c18Gov, Params: erc20types.NewParams(op.A%4 != 3, op.B%2 == 0)})
 		r.count(op, err)
 	default:
-		if r.execGuard(op) || r.execExtra(op) {
+		if r.execGuard(op) || r.execExtra(op) || r.execBulk(op) {
 			return
 		}
 		panic("c18: unknown op kind " + op.Kind)
@@ -584,7 +584,9 @@ func (p *c18Proj) optPair(x erc20types.TokenPair, ok bool) string {
 	return App("SoPair", p.pair(x))
 }
 
-func c18ErcParams(x erc20types.Params) string { return App("mkErc", B(x.EnableErc20), B(x.EnableEVMHook)) }
+func c18ErcParams(x erc20types.Params) string {
+	return App("mkErc", B(x.EnableErc20), B(x.EnableEVMHook))
+}
 
 func (p *c18Proj) ercGen(g erc20types.GenesisState) string {
 	ok := true
@@ -607,7 +609,9 @@ func (p *c18Proj) ercGen(g erc20types.GenesisState) string {
 	return App("mkErcGen", c18ErcParams(g.Params), L(pairs), L(dens), L(addrs), B(ok))
 }
 
-func c18CsrParams(x csrtypes.Params) string { return App("Authority.mkCsr", B(x.EnableCsr), Z(x.CsrShares.BigInt())) }
+func c18CsrParams(x csrtypes.Params) string {
+	return App("Authority.mkCsr", B(x.EnableCsr), Z(x.CsrShares.BigInt()))
+}
 
 func c18CsrRec(x csrtypes.CSR) string {
 	var cs []string
@@ -1084,7 +1088,7 @@ var c18BadKinds = map[string][]string{
 func runC18(e *Env) {
 	e.Header("From stdpp Require Import gmap.\nFrom Coq Require Import ZArith List.\nFrom Canto Require Model.TokenPairs Model.Csr.\nFrom Canto Require Import Model.Authority Model.Epochs Model.Genesis Check.Common Check.GenesisCheck.\nImport ListNotations.\nOpen Scope Z_scope.\n")
 	e.ShardSize = 4
-	e.Stats.Rule = "case = generated history on a real chain (InitChain with a genuine bonded validator, non-zero genesis time): coinswap add/remove liquidity and swaps, erc20 register coin / register ERC-20 / toggle / removal after self-destruct, csr enable + Turnstile deployment by BeginBlock + register/assign through signed Ethereum transactions (revenue, tx counters), govshuttle lending-market proposal (port contract), block time advanced through EpochsKeeper.BeginBlocker across day/week boundaries with inflation as listener, parameter updates of coinswap / inflation / csr / onboarding / erc20; stream pools: 14 whitelisted denominations and 10-13 pools (two-digit pool sequence), full liquidity removal; stream inflation: enable_inflation toggled both ways around day/week boundaries; genesis varies epochs_per_period {1,2,3,5,30} and the inflation identifier {day, week}; stream guard-overflow-params: overflowing inflation parameters must be rejected; then whole-app export from the live deliver context, each module's ValidateGenesis, InitChain of a fresh app from the export, second export without a block, module queries on both; plus malformed documents per module against the real ValidateGenesis; non-trivial = the exported Canto state differs from the default genesis; distinct by hash of the seven exported documents"
+	e.Stats.Rule = "case = generated history on a real chain (InitChain with a genuine bonded validator, non-zero genesis time): coinswap add/remove liquidity and swaps, erc20 register coin / register ERC-20 / toggle / removal after self-destruct, csr enable + Turnstile deployment by BeginBlock + register/assign through signed Ethereum transactions (revenue, tx counters), govshuttle lending-market proposal (port contract), block time advanced through EpochsKeeper.BeginBlocker across day/week boundaries with inflation as listener, parameter updates of coinswap / inflation / csr / onboarding / erc20; stream pools: 14 whitelisted denominations and 10-13 pools (two-digit pool sequence), full liquidity removal; stream inflation: enable_inflation toggled both ways around day/week boundaries; genesis varies epochs_per_period {1,2,3,5,30} and the inflation identifier {day, week}; stream guard-overflow-params: overflowing inflation parameters must be rejected; stream bulk: more than 100 CSR NFTs (real Turnstile + hook), token pairs and pools, with probes for every object of the original chain's stores; then whole-app export from the live deliver context, each module's ValidateGenesis, InitChain of a fresh app from the export, second export without a block, module queries on both; plus malformed documents per module against the real ValidateGenesis; non-trivial = the exported Canto state differs from the default genesis; distinct by hash of the seven exported documents"
 	var cases []c18Case
 	if e.Replay != nil {
 		var k c18Case
@@ -1104,6 +1108,9 @@ func runC18(e *Env) {
 			case c == 0:
 				k.Stream = "empty"
 				k.Ops = []c18Op{}
+			case c%64 == 11:
+				k.Stream = "bulk" // more than 100 objects in every exported collection
+				k.Ops = e.c18GenBulkOps()
 			case c%4 == 1:
 				k.Stream = "pools"
 				k.Ops = e.c18GenPoolsOps()
@@ -1183,6 +1190,36 @@ func runC18(e *Env) {
 			q.nfts = append(q.nfts, x.Id)
 			q.contracts = append(q.contracts, x.Contracts...)
 		}
+		// ... and every object the ORIGINAL chain's stores hold, whether or not the export lists it
+		{
+			seenN, seenL, seenP := map[uint64]bool{}, map[string]bool{}, map[string]bool{}
+			for _, x := range q.nfts {
+				seenN[x] = true
+			}
+			for _, x := range q.lpts {
+				seenL[x] = true
+			}
+			for _, x := range d1.erc.TokenPairs {
+				seenP[x.Denom] = true
+			}
+			for _, x := range c18RawCSRs(a, ctx) {
+				if !seenN[x.Id] {
+					q.nfts = append(q.nfts, x.Id)
+					q.contracts = append(q.contracts, x.Contracts...)
+				}
+			}
+			for _, x := range c18RawPools(a, ctx) {
+				if !seenL[x.LptDenom] {
+					q.lpts = append(q.lpts, x.LptDenom)
+				}
+			}
+			for _, x := range c18RawPairs(a, ctx) {
+				if !seenP[x.Denom] {
+					q.toks = append(q.toks, x.Denom, x.Erc20Address)
+					q.pids = append(q.pids, x.GetID())
+				}
+			}
+		}
 		q.nfts = append(q.nfts, 0, 1, 424242)
 		for _, c := range r.csrc {
 			q.contracts = append(q.contracts, c.Hex())
@@ -1204,6 +1241,9 @@ func runC18(e *Env) {
 			p.learnPair(x)
 		}
 		for _, x := range d2.erc.TokenPairs {
+			p.learnPair(x)
+		}
+		for _, x := range c18RawPairs(a, ctx) {
 			p.learnPair(x)
 		}
 		e1 := p.genesis(d1)
@@ -1254,6 +1294,7 @@ func runC18(e *Env) {
 		e.Stats.Count(fmt.Sprintf("imported:%v", imported))
 		r.coverStats(d1)
 		r.guardReport(c, k, valid[3], imported, failure)
+		r.bulkMonitors(c, len(k.Ops)-1, d1, b, bctx)
 		e.Stats.Sample(k)
 	}
 }
